@@ -34,6 +34,55 @@ structure EngineLaws (L : Str → Str → Prop) (ceq : Char → Char → Bool)
   /-- the result is a map: every group name once -/
   caps_nodup : ∀ s m, caps (renderCapture ts) s = some m → (names m).Nodup
 
+/-- The same laws at ONE haystack `s`: what the theorems about a given request actually use (so that they can be
+discharged for a concrete engine and request by evaluation). -/
+structure EngineLawsAt (L : Str → Str → Prop) (ceq : Char → Char → Bool)
+    (full search : Str → Str → Bool) (caps : Str → Str → Option (List (Str × Str))) (ts : List Tok) (s : Str) :
+    Prop where
+  full_iff : full (renderRegex ts) s = true ↔ ∃ vs, Decomp L ceq ts s vs
+  search_iff : search (renderRegex ts) s = true ↔ ∃ a mid b vs, s = a ++ mid ++ b ∧ Decomp L ceq ts mid vs
+  caps_sound : ∀ m, caps (renderCapture ts) s = some m → ∃ vs, Decomp L ceq ts s vs ∧ ∀ n, m.lookup n = vs.lookup n
+  caps_complete : (∃ vs, Decomp L ceq ts s vs) → (caps (renderCapture ts) s).isSome = true
+  caps_nodup : ∀ m, caps (renderCapture ts) s = some m → (names m).Nodup
+
+theorem EngineLaws.at_ {L : Str → Str → Prop} {ceq : Char → Char → Bool} {full search : Str → Str → Bool}
+    {caps : Str → Str → Option (List (Str × Str))} {ts : List Tok}
+    (laws : EngineLaws L ceq full search caps ts) (s : Str) : EngineLawsAt L ceq full search caps ts s :=
+  ⟨laws.full_iff s, laws.search_iff s, laws.caps_sound s, laws.caps_complete s, laws.caps_nodup s⟩
+
+/-! ### unanchored search derived from the anchored match -/
+
+/-- All infixes of `s`. -/
+def infixes (s : Str) : List Str :=
+  (List.range (s.length + 1)).flatMap fun a => (List.range (s.length - a + 1)).map fun k => (s.drop a).take k
+
+/-- `p` matches somewhere in `s` = `^p$` matches some infix of `s` (what `Regex::is_match` means for a pattern
+without anchors or look-around). -/
+def searchOf (full : Str → Str → Bool) (p s : Str) : Bool := (infixes s).any (full p)
+
+theorem mem_infixes (s mid : Str) : mid ∈ infixes s ↔ ∃ a b, s = a ++ mid ++ b := by
+  simp only [infixes, List.mem_flatMap, List.mem_range, List.mem_map]
+  constructor
+  · rintro ⟨a, _, k, _, rfl⟩
+    refine ⟨s.take a, (s.drop a).drop k, ?_⟩
+    rw [List.append_assoc, List.take_append_drop, List.take_append_drop]
+  · rintro ⟨a, b, rfl⟩
+    refine ⟨a.length, by simp; omega, mid.length, by simp; omega, ?_⟩
+    simp
+
+/-- If `full` satisfies the matching law on every haystack, `searchOf full` satisfies the search law. -/
+theorem searchOf_iff (L : Str → Str → Prop) (ceq : Char → Char → Bool) (full : Str → Str → Bool) (ts : List Tok)
+    (hfull : ∀ s, full (renderRegex ts) s = true ↔ ∃ vs, Decomp L ceq ts s vs) (s : Str) :
+    searchOf full (renderRegex ts) s = true ↔ ∃ a mid b vs, s = a ++ mid ++ b ∧ Decomp L ceq ts mid vs := by
+  simp only [searchOf, List.any_eq_true]
+  constructor
+  · rintro ⟨mid, hmem, hf⟩
+    obtain ⟨a, b, rfl⟩ := (mem_infixes s mid).mp hmem
+    obtain ⟨vs, hvs⟩ := (hfull mid).mp hf
+    exact ⟨a, mid, b, vs, rfl, hvs⟩
+  · rintro ⟨a, mid, b, vs, rfl, hvs⟩
+    exact ⟨mid, (mem_infixes _ mid).mpr ⟨a, b, rfl⟩, (hfull mid).mpr ⟨vs, hvs⟩⟩
+
 theorem decomp_inst (L : Str → Str → Prop) (ceq : Char → Char → Bool) (hrefl : ∀ c, ceq c c = true)
     (ts : List Tok) (v : Str → Str) (hacc : ∀ n re, Tok.grp n re ∈ ts → L re (v n)) :
     Decomp L ceq ts (instOf ts v) (groupValues ts v) := by
@@ -160,6 +209,129 @@ theorem decomp_unique (L : Str → Str → Prop) (ceq : Char → Char → Bool) 
           rw [instOf_cons_lit] at heq
           have hsplit := split_unique (fun z => ceq d z) (v n) w (instOf ts2 v) s'' d d'
             hdv (hdL w hw) (hrefl d) hcd heq
+          obtain ⟨hvw, hss⟩ := hsplit
+          have hdd : d = d' := by
+            rw [hvw] at heq
+            have := List.append_cancel_left heq
+            simp at this; exact this.1
+          subst hdd
+          have hrest' : Decomp L ceq (.lit d :: ts2) (instOf (.lit d :: ts2) v) vs' := by
+            rw [instOf_cons_lit, hss]; exact .lit hcd hrest2
+          have := ih hdrest vs' hrest'
+          refine ⟨?_, ?_⟩
+          · rw [this.1, ← hvw]; simp [groupValues, groupNames]
+          · intro n' re' hm
+            rcases List.mem_cons.mp hm with h1 | h1
+            · simp at h1
+              obtain ⟨rfl, rfl⟩ := h1
+              rw [hvw]; exact hw
+            · exact this.2 n' re' h1
+
+/-! ### a weaker delimiter condition: the language OR the rest of the instantiated string avoids the delimiter -/
+
+/-- Like `Delimited`, but a group followed by the literal `d` may have ANY language (an "anything" marker `.+?`,
+`.*`) provided `d` does not occur in the rest of the instantiated string after that literal (the common shapes
+`/@a/rest`, `/@a/@id`, `@sub.example`): the value side is always required (`d` not in the group's own value). -/
+def DelimitedOr (L : Str → Str → Prop) (ceq : Char → Char → Bool) (v : Str → Str) : List Tok → Prop
+  | [] => True
+  | .lit _ :: ts => DelimitedOr L ceq v ts
+  | .grp _ _ :: [] => True
+  | .grp n re :: .lit d :: ts =>
+    (∀ x ∈ v n, ceq d x = false) ∧
+    ((∀ w, L re w → ∀ x ∈ w, ceq d x = false) ∨ (∀ x ∈ instOf ts v, ceq d x = false)) ∧
+    DelimitedOr L ceq v (.lit d :: ts)
+  | .grp _ _ :: .grp _ _ :: _ => False
+
+theorem delimitedOr_of_delimited (L : Str → Str → Prop) (ceq : Char → Char → Bool) (v : Str → Str) (ts : List Tok)
+    (h : Delimited L ceq v ts) : DelimitedOr L ceq v ts := by
+  induction ts with
+  | nil => trivial
+  | cons tk ts ih =>
+    cases tk with
+    | lit c => simp only [Delimited] at h; simp only [DelimitedOr]; exact ih h
+    | grp n re =>
+      cases ts with
+      | nil => trivial
+      | cons tk2 ts2 =>
+        cases tk2 with
+        | grp n2 re2 => simp [Delimited] at h
+        | lit d =>
+          simp only [Delimited] at h
+          simp only [DelimitedOr]
+          exact ⟨h.1, Or.inl h.2.1, ih h.2.2⟩
+
+/-- `a` has no `d`-like char and nothing after the first `d`-like char has one: the split is forced. -/
+theorem split_unique_or (P : Char → Bool) (a b x y : Str) (c d : Char) (ha : ∀ z ∈ a, P z = false)
+    (hx : ∀ z ∈ x, P z = false) (hd : P d = true) (h : a ++ c :: x = b ++ d :: y) :
+    a = b ∧ x = y := by
+  induction a generalizing b with
+  | nil =>
+    cases b with
+    | nil => simp at h; exact ⟨rfl, h.2⟩
+    | cons e es =>
+      simp at h
+      have : d ∈ x := by rw [h.2]; simp
+      rw [hx d this] at hd; simp at hd
+  | cons e es ih =>
+    cases b with
+    | nil =>
+      simp at h
+      have := ha e (by simp)
+      rw [h.1, hd] at this; simp at this
+    | cons f fs =>
+      simp at h
+      obtain ⟨rfl, h⟩ := h
+      have := ih fs (fun z hz => ha z (List.mem_cons_of_mem _ hz)) h
+      exact ⟨by rw [this.1], this.2⟩
+
+/-- Unique decomposition under the weaker condition. -/
+theorem decomp_unique_or (L : Str → Str → Prop) (ceq : Char → Char → Bool) (hrefl : ∀ c, ceq c c = true)
+    (v : Str → Str) (ts : List Tok)
+    (hd : DelimitedOr L ceq v ts) (vs : List (Str × Str)) (h : Decomp L ceq ts (instOf ts v) vs) :
+    vs = groupValues ts v ∧ ∀ n re, Tok.grp n re ∈ ts → L re (v n) := by
+  induction ts generalizing vs with
+  | nil =>
+    have := decomp_nil_inv h
+    simp [this.2, groupValues, groupNames]
+  | cons tk ts ih =>
+    cases tk with
+    | lit c =>
+      rw [instOf_cons_lit] at h
+      obtain ⟨d, s', heq, hc, hrest⟩ := decomp_lit_inv h
+      simp only [List.cons.injEq] at heq
+      obtain ⟨rfl, rfl⟩ := heq
+      simp only [DelimitedOr] at hd
+      have := ih hd vs hrest
+      refine ⟨by simpa [groupValues, groupNames] using this.1, ?_⟩
+      intro n re hm
+      rcases List.mem_cons.mp hm with h1 | h1
+      · simp at h1
+      · exact this.2 n re h1
+    | grp n re =>
+      rw [instOf_cons_grp] at h
+      obtain ⟨w, s', vs', heq, rfl, hw, hrest⟩ := decomp_grp_inv h
+      cases ts with
+      | nil =>
+        obtain ⟨rfl, rfl⟩ := decomp_nil_inv hrest
+        simp only [instOf_nil, List.append_nil] at heq
+        refine ⟨by simp [groupValues, groupNames, heq], ?_⟩
+        intro n' re' hm
+        simp at hm
+        obtain ⟨rfl, rfl⟩ := hm
+        rw [heq]; exact hw
+      | cons tk2 ts2 =>
+        cases tk2 with
+        | grp n2 re2 => simp [DelimitedOr] at hd
+        | lit d =>
+          simp only [DelimitedOr] at hd
+          obtain ⟨hdv, hdL, hdrest⟩ := hd
+          obtain ⟨d', s'', rfl, hcd, hrest2⟩ := decomp_lit_inv hrest
+          rw [instOf_cons_lit] at heq
+          have hsplit : v n = w ∧ instOf ts2 v = s'' := by
+            rcases hdL with hL | hR
+            · exact split_unique (fun z => ceq d z) (v n) w (instOf ts2 v) s'' d d'
+                hdv (hL w hw) (hrefl d) hcd heq
+            · exact split_unique_or (fun z => ceq d z) (v n) w (instOf ts2 v) s'' d d' hdv hR hcd heq
           obtain ⟨hvw, hss⟩ := hsplit
           have hdd : d = d' := by
             rw [hvw] at heq
